@@ -765,6 +765,12 @@ def stepLine (d : Driver) (toks : List String) : Driver × List String :=
     -- (IORING_REGISTER_ENABLE_RINGS), so this is the `same` case
     else if w == "enabled-elsewhere" then (d, ["single-last-handle closes=1 open=0 refused=0"])
     else (d, ["bad-op"])
+  | ["teardown", "sqpoll-ring-drop"] =>
+    -- A ring with a kernel submission thread whose queue (an abandoned read and its cancel
+    -- request) the thread has not taken when the Ring is dropped: the drop waits for the thread to
+    -- take it, then cancels what is in flight and processes the last completions, which releases
+    -- the read's state and buffer.
+    if !d.live then (d, ["bad-op"]) else (d, ["sqpoll-ring-drop queued=2 released=1/1"])
   | ["teardown", "sqpoll-last-handle"] =>
     -- A ring with a kernel submission thread, of its own: the Ring is dropped, then a regular
     -- `AsyncFd` — the last handle. Its CLOSE is queued after the Ring is gone and consumed by the
